@@ -20,7 +20,7 @@ RULE = ("cases: a curve/surface/volume (rational or not, 2-D or 3-D) or a contai
 ASSUMPTIONS = ["nvmon.ref exact reference model for the input points; cos/sin of the angle from the math module (tolerance 1e-9*scale)"]
 FLOORS = {'quick': {'mapped-point': 3000, 'weights-unchanged': 150, 'inplace-semantics': 300, 'aggregate': 100},
           'thorough': {'mapped-point': 30000}}
-MANDATORY_TAGS = ['container:shape-listed-twice', 'unclamped', 'coarse-precision', 'translate', 'rotate', 'scale', 'container', 'single', 'inplace', 'copy', 'rational', 'axis0', 'axis1', 'axis2',
+MANDATORY_TAGS = ['container:shape-listed-twice', 'container:equal-twins', 'unclamped', 'coarse-precision', 'translate', 'rotate', 'scale', 'container', 'single', 'inplace', 'copy', 'rational', 'axis0', 'axis1', 'axis2',
                   'dim2', 'pdim3', 'read-before-inplace', 'null-map', 'partially-iterated']
 TECHNIQUE = ("runtime monitoring: exact reference points of the input mapped by the exact affine map vs library evaluation of the "
              "result, plus object-identity / input-digest checks, under a seeded workload incl. containers")
@@ -68,6 +68,12 @@ def check(case, ctx):
             elems = elems + [elems[0]]
             defs = defs + [defs[0]]
             ctx.tag('container:shape-listed-twice')
+        elif case['seed'] % 6 == 1:
+            # two distinct objects with equal data (a shape and its copy): both move
+            import copy as _copy
+            elems = elems + [_copy.deepcopy(elems[0])]
+            defs = defs + [defs[0]]
+            ctx.tag('container:equal-twins')
         obj = cls(*elems)
         obj.sample_size = {1: 6, 2: 4, 3: 3}[pdim]
     else:
